@@ -110,6 +110,10 @@ pub fn run(ctx: &Ctx) -> i32 {
         acc.inconclusive.push("validator canary did not fire".into());
     }
     acc.witnesses();
+    if !ctx.quick() {
+        // the status domain under the interpreter: NonZeroU16::new_unchecked with a value the range check let through is UB
+        acc.miri(8, 18);
+    }
     acc.finish(
         "exploration",
         "every document emitted for the exploration workload (G-wt programs, accepted kind-breaking/token/byte mutants, corpus), re-parsed from its YAML text and walked by an independent validator: $ref closure, path variables vs required path parameters, response key domain, operationId uniqueness, YAML round trip; non-trivial = document contains a $ref or a path parameter; distinct by source hash",
